@@ -172,6 +172,28 @@ Theorem C14_shared_tmp_overlap_unsafe :
 Proof. exact shared_tmp_overlap_unsafe. Qed.
 Print Assumptions C14_shared_tmp_overlap_unsafe.
 
+(** Two overlapping saves, each through a temporary name and a descriptor of
+    its own (what renameio gives every save): EVERY interleaving of their
+    system calls, for all contents and chunkings, is accepted by the checker,
+    publishes exactly two versions, and at every instant and after a crash at
+    every prefix dst holds the old content or one of the two complete new
+    contents. *)
+Theorem C14_two_saves_safe : forall s dst fdA tmpA chunksA fdB tmpB chunksB t,
+  quiescent s dst -> unused_above dst s ->
+  fdA <> fdB -> tmpA <> tmpB -> tmpA <> dst -> tmpB <> dst ->
+  aget (dir_cur s) tmpA = None -> aget (dir_cur s) tmpB = None ->
+  In t (interleavings (atomic_shape fdA tmpA dst chunksA) (atomic_shape fdB tmpB dst chunksB)) ->
+  trace_safe dst s t = true /\
+  length (versions s t dst) = 2%nat /\
+  forall v, In v (visible_states s t dst) ->
+            v = live_view s dst \/ v = Some (concat chunksA) \/ v = Some (concat chunksB).
+Proof. exact two_saves_safe. Qed.
+Print Assumptions C14_two_saves_safe.
+
+Theorem C14_boot_unused_above : forall ents dst, unused_above dst (boot ents).
+Proof. exact boot_unused_above. Qed.
+Print Assumptions C14_boot_unused_above.
+
 (** Failure paths clean up: a name created during the trace is gone at the
     end unless it is in [keep]. *)
 Theorem C14_no_leftovers : forall keep s t,
@@ -240,3 +262,10 @@ Example C14_own_tmp_interleavings_safe :
                     | _ => false
                     end) (interleavings tA tB) = true.
 Proof. exact own_tmp_interleavings_safe. Qed.
+
+Example C14_two_saves_premises :
+  let s := boot [(1, [1; 2; 3])] in
+  quiescent s 1 /\ unused_above 1 s /\ aget (dir_cur s) 2 = None /\ aget (dir_cur s) 5 = None /\
+  In ([Open 3 2 fl_tmp; Open 4 5 fl_tmp; Write 4 [7]; Write 3 [4; 5]; Fsync 4; Fsync 3; Close 3; Rename 2 1; Close 4; Rename 5 1])
+     (interleavings (atomic_shape 3 2 1 [[4; 5]]) (atomic_shape 4 5 1 [[7]])).
+Proof. exact two_saves_premises. Qed.
